@@ -166,7 +166,7 @@ func (tx *Transaction) Commit(ctx context.Context, scope *ReferenceScope, expr p
 				if err := vhook.Step("tx.commit.linebreak", fileInfo.Path); err != nil {
 					return NewCommitError(expr, err.Error())
 				}
-				if _, err := fp.Write([]byte(tx.Flags.ExportOptions.LineBreak.Value())); err != nil {
+				if _, err := fp.Write([]byte(fileInfo.LineBreak.Value())); err != nil {
 					return NewCommitError(expr, err.Error())
 				}
 			}
@@ -198,7 +198,7 @@ func (tx *Transaction) Commit(ctx context.Context, scope *ReferenceScope, expr p
 				if err := vhook.Step("tx.commit.linebreak", fileInfo.Path); err != nil {
 					return NewCommitError(expr, err.Error())
 				}
-				if _, err := fp.Write([]byte(tx.Flags.ExportOptions.LineBreak.Value())); err != nil {
+				if _, err := fp.Write([]byte(fileInfo.LineBreak.Value())); err != nil {
 					return NewCommitError(expr, err.Error())
 				}
 			}
